@@ -29,14 +29,19 @@ SetIt(trk, id, v) == [trk EXCEPT !.its = (id :> v) @@ trk.its]
 Advance(c, trk, call, o) ==
   CASE call.op = "load" -> [trk EXCEPT !.loaded = IF o.k = "ok" THEN "bi" ELSE "none"]
     [] call.op \in {"tags", "module_tags"} ->
-         IF o.k = "unit" THEN SetIt(trk, call.it, [kind |-> call.op, k |-> 0, dead |-> FALSE]) ELSE trk
+         IF o.k = "unit" THEN SetIt(trk, call.it, [kind |-> call.op, k |-> 0, cp |-> FALSE, dead |-> FALSE]) ELSE trk
     [] call.op = "clone" ->
          IF o.k = "unit" /\ HasIt(trk, call.it) THEN SetIt(trk, call.to, ItOf(trk, call.it)) ELSE trk
     [] call.op = "next" ->
          IF ~HasIt(trk, call.it) THEN trk
-         ELSE LET s == ItOf(trk, call.it) IN
-              SetIt(trk, call.it, [s EXCEPT !.k = IF o.k = "some" THEN s.k + 1 ELSE s.k,
-                                            !.dead = s.dead \/ o.k \in {"panic", "crash", "hang"}])
+         ELSE LET s == ItOf(trk, call.it)
+                  \* a module iterator's panic on an undersized module tag consumes that tag
+                  castPanic == /\ s.kind = "module_tags" /\ o.k = "panic" /\ ~s.dead
+                               /\ LET ms == ModItems(InfoWalk(c.mem)) IN
+                                  s.k < Len(ms) /\ ms[s.k + 1].size < ModuleBase IN
+              SetIt(trk, call.it, [s EXCEPT !.k = IF o.k = "some" \/ castPanic THEN s.k + 1 ELSE s.k,
+                                            !.cp = s.cp \/ castPanic,
+                                            !.dead = s.dead \/ (o.k \in {"panic", "crash", "hang"} /\ ~castPanic)])
     [] OTHER -> trk
 
 \* ---- C14 ---------------------------------------------------------------------------
@@ -64,15 +69,7 @@ C03_Accept(c, trk, call, o) ==
          IF ~HasIt(trk, call.it) THEN o.k = "skipped"
          ELSE LET s == ItOf(trk, call.it)  w == InfoWalk(c.mem) IN
               CASE s.kind = "tags" -> AcceptTagNext(w, s.k, s.dead, o)
-                [] s.kind = "module_tags" ->
-                     \* the module iterator yields exactly the module tags of the walk, in order;
-                     \* if the walk ends in a panic, so does the module iterator after the last module
-                     LET ms == ItemsOfType(w, ModuleTyp) IN
-                     IF s.dead THEN o.k \in {"panic", "none"}
-                     ELSE IF s.k < Len(ms) THEN
-                          /\ o.k = "some" /\ o.v.at = ms[s.k + 1].at
-                          /\ o.v.size = U32Bytes(ms[s.k + 1].size) /\ o.v.sv = RoundUp8(ms[s.k + 1].size)
-                     ELSE IF w.fin = "none" THEN o.k = "none" ELSE o.k = "panic"
+                [] s.kind = "module_tags" -> AcceptTagNextMod(w, s.k, s.cp, s.dead, o)
                 [] OTHER -> TRUE
     [] OTHER -> TRUE
 
@@ -88,7 +85,8 @@ DesignModNext(mem, end, cur, dead) ==
   LET r == DesignTagNext(mem, end, cur, dead) IN
   IF r.o.k # "some" THEN r
   ELSE IF r.o.v.typ = ModuleTyp
-       THEN [o |-> Some([at |-> r.o.v.at, size |-> r.o.v.size, sv |-> r.o.v.sv]), cur |-> r.cur, dead |-> r.dead]
+       THEN IF r.o.v.plen < ModuleBase - 8 THEN [o |-> Panic, cur |-> r.cur, dead |-> FALSE]  \* dst_len assertion in cast; cursor already advanced
+            ELSE [o |-> Some([at |-> r.o.v.at, size |-> r.o.v.size, sv |-> r.o.v.sv]), cur |-> r.cur, dead |-> r.dead]
        ELSE DesignModNext(mem, end, r.cur, r.dead)
 
 DesignStep(c, ds, call) ==
